@@ -1,0 +1,63 @@
+//! Verification hooks (read-only dumps and raw field access for damage
+//! injection).  Compiled only with `--cfg kentbeck_bplustree3_verif`; the
+//! normal build does not contain this module.
+
+use crate::compact_arena::CompactArena;
+use crate::types::{BPlusTreeMap, BranchNode, LeafNode, NodeId, NodeRef};
+
+impl<T> CompactArena<T> {
+    /// (storage, allocated_mask, free_list) exactly as stored.
+    pub fn verif_raw(&self) -> (&[T], &[bool], &[usize]) {
+        self.verif_raw_parts()
+    }
+}
+
+impl<K, V> BPlusTreeMap<K, V> {
+    pub fn verif_capacity(&self) -> usize {
+        self.capacity
+    }
+    pub fn verif_root(&self) -> NodeRef<K, V> {
+        self.root
+    }
+    pub fn verif_set_root(&mut self, root: NodeRef<K, V>) {
+        self.root = root;
+    }
+    pub fn verif_leaf_arena(&self) -> &CompactArena<LeafNode<K, V>> {
+        &self.leaf_arena
+    }
+    pub fn verif_branch_arena(&self) -> &CompactArena<BranchNode<K, V>> {
+        &self.branch_arena
+    }
+    pub fn verif_leaf_arena_mut(&mut self) -> &mut CompactArena<LeafNode<K, V>> {
+        &mut self.leaf_arena
+    }
+    pub fn verif_branch_arena_mut(&mut self) -> &mut CompactArena<BranchNode<K, V>> {
+        &mut self.branch_arena
+    }
+}
+
+impl<K, V> LeafNode<K, V> {
+    /// (capacity, keys, values, next)
+    pub fn verif_fields(&self) -> (usize, &Vec<K>, &Vec<V>, NodeId) {
+        (self.capacity, &self.keys, &self.values, self.next)
+    }
+    /// (capacity, keys, values, next), mutable: lets a harness inject one precise kind of damage.
+    pub fn verif_fields_mut(&mut self) -> (&mut usize, &mut Vec<K>, &mut Vec<V>, &mut NodeId) {
+        (
+            &mut self.capacity,
+            &mut self.keys,
+            &mut self.values,
+            &mut self.next,
+        )
+    }
+}
+
+impl<K, V> BranchNode<K, V> {
+    /// (capacity, keys, children)
+    pub fn verif_fields(&self) -> (usize, &Vec<K>, &Vec<NodeRef<K, V>>) {
+        (self.capacity, &self.keys, &self.children)
+    }
+    pub fn verif_fields_mut(&mut self) -> (&mut usize, &mut Vec<K>, &mut Vec<NodeRef<K, V>>) {
+        (&mut self.capacity, &mut self.keys, &mut self.children)
+    }
+}
